@@ -893,6 +893,12 @@ def set_method(E, recv, name, lv, args, kw, st, node):
         if isinstance(a, Empty):
             yield st, SVal(None, NONE)
             return
+        if isinstance(a, IterView) and a.kind == "gen":
+            from .comp import set_comp_from_gen
+            for s2, sv in set_comp_from_gen(E, a, st):
+                E.mutate(s2, lv, recv, SVal(E.set_union(recv.t, E.coerce(sv, ty, s2).t, ty), ty))
+                yield s2, SVal(None, NONE)
+            return
         if isinstance(a, SVal) and isinstance(a.ty, TSet):
             o = a
         else:
